@@ -211,7 +211,7 @@ def ob_s_unpack(ob):
 
 # ------------------------------------------------------------------ S: default precedence and fixed_twprge on the real API
 TEXTS_D = ('T154-R97 Sec 14: NE/4', 'T154N-R97 Sec 14: NE/4', 'T154-R97W Sec 14: NE/4', 'T154N-R97W Sec 14: NE/4',
-           'Township 154, Range 97 West, Section 14: NE/4')
+           'Township 154, Range 97 West, Section 14: NE/4', 'T154-R97 Sec 14: NE/4\nT154N-R97W Sec 15: W/2')
 
 
 def ob_s_defaults(ob):
@@ -265,7 +265,8 @@ def defaults_verdict(text, cns, cew, kns, kew, how):
     if how == 0:
         d = pytrs.PLSSDesc(text, config=cfg, wait_to_parse=True)
         d.parse(default_ns=kns, default_ew=kew)
-        if canon not in d.pp_desc or [t.trs for t in d.tracts] != [f'154{ens.lower()}97{eew.lower()}14']:
+        want_trs = [f'154{ens.lower()}97{eew.lower()}14'] + (['154n97w15'] if 'Sec 15' in text else [])
+        if canon not in d.pp_desc or [t.trs for t in d.tracts] != want_trs:
             return f'parse: pp_desc {d.pp_desc!r}, tracts {[t.trs for t in d.tracts]}, expected {canon}'
         fixed = any(f.startswith('fixed_twprge') for f in d.w_flags)
         if fixed != (not (has_ns and has_ew)):
@@ -280,7 +281,7 @@ def defaults_verdict(text, cns, cew, kns, kew, how):
             return f'preprocess: {pp!r}, expected {canon}'
     else:
         got = pytrs.find_twprge(text, default_ns=kns or cns, default_ew=kew or cew, preprocess=True)
-        if got != [canon]:
+        if got != [canon] + (['T154N-R97W'] if 'Sec 15' in text else []):
             return f'find_twprge: {got}, expected {[canon]}'
     return None
 
